@@ -374,7 +374,16 @@ impl Sim {
             }
             // candidate order: current thread, the due event, other threads by id
             let mut idx = 0usize;
-            if n > 1 {
+            if self.draining {
+                // tear-down: no draws, plain round-robin so that nobody starves
+                if ev_due {
+                    idx = if !cands.is_empty() && cands[0] == me { 1 } else { 0 };
+                } else if cands.len() > 1 && cands[0] == me {
+                    // next thread after me in id order, wrapping
+                    let next = cands.iter().skip(1).position(|t| *t > me).map(|p| p + 1).unwrap_or(1);
+                    idx = next;
+                }
+            } else if n > 1 {
                 let stick = if !cands.is_empty() && cands[0] == me {
                     let s = self.choices.choose("stick", 100);
                     s < self.cfg.stick_pct
